@@ -329,7 +329,7 @@ CHECKS["C15"] = {
              "pool's lists finds <= capacity entries in total and <= key capacity per key (none at all for negative capacities) and no connection that is currently handed out; a taken connection was put and not handed out since, "
              "has the requested key, is not closed, not blocked, and its expiry has not fired. At the end (Pool.Close, all expiries released): every put connection was handed out xor closed, never handed out more often than put; no panic. "
              "Non-trivial: an eviction happened, or an expiry callback was released in the middle of the history. "
-             "poolconn: the same ownership rules through the public wrapper (Pool.Get): histories of overlapping Invokes (each parked inside the fake connection until released), streams opened and ended, streams that cannot be opened (the connection goes back to the pool), over two keys and small capacities; "
+             "poolconn: the same ownership rules through the public wrapper (Pool.Get): histories of overlapping Invokes (each parked inside the fake connection until released), streams opened and ended, streams that cannot be opened (the connection goes back to the pool), streams that end while the return of their connection to the pool takes a while (the wrapped stream's Done channel must stay open until the connection is back), over two keys and small capacities; "
              "no fake connection may ever serve two callers at once, no call may run on a connection the pool has closed, bounds hold after every step, and at the end every dialed connection is cached xor closed. Non-trivial: >= 2 calls overlapped and >= 2 connections were dialed. "
              "stress (thorough tier, built with -race): 2..6 goroutines issue 4..40 Put/Take/Close calls each on one pool at once (with or without expiration timers), nothing between them but the pool's own locking; "
              "a race report with both accesses inside storj.io/drpc, a connection closed twice, handed out closed, or closed while a caller holds it is a violation. Non-trivial: >= 2 workers."),
